@@ -151,6 +151,22 @@ theorem schnorr_sig_r_compared_raw :
     Gen.C03Facts.schnorrSigRxRaw = true ∧ Gen.C03Facts.schnorrSigRxUses = ["Equals", "SetB32"] := by
   decide
 
+/-- SOURCE FACT behind every signer theorem of this file, regenerated from /repo/lib on every run
+    (go/cmd/gen_c03/config.go → Gen/C03Facts.lean) and re-checked here by the kernel: the model treats the
+    nonce-scheme switch `EcdsaSignWithRFC6979` and the three verifier hooks (the exported package-level
+    variables of lib/btc/ecdsa.go) as CONFIGURATION — set once by the application, so that `ecdsaSignRfc`
+    IS `btc.EcdsaSign` for the whole life of a process that switched RFC 6979 on, whatever library calls
+    came before. That holds because no function of lib/ (any package, non-test files) writes one of these
+    variables: no assignment, no `range` assigning to it, no increment or decrement, no address taken. A library function
+    that toggles the switch (even one that restores it on its success path) makes the signer of a later
+    call depend on the HISTORY of calls; this list then becomes non-empty and the theorem stops compiling,
+    and the harness looks for the failing history (op `hist`: configure, call a mix of VerifyKeyPair /
+    verifiers / signers / key functions, compare `btc.EcdsaSign` with the configured signer after every
+    step). -/
+theorem config_written_by_no_library_function :
+    Gen.C03Facts.configWriters = [] ∧ Gen.C03Facts.signerSwitch ∈ Gen.C03Facts.configVars := by
+  decide
+
 /-- BIP341: `btc.CheckPayToContract` (model of the current code) returns exactly the BIP341 tweak
     check: 32-byte liftable internal key, tweak below n, Q = lift_x(P) + t·G finite, x(Q) equal to the
     output key and the parity bit equal to y(Q) mod 2. -/
